@@ -185,12 +185,21 @@ class C15(Engine):
               "glob_perms": [rng.choice([None, "rev", rng.randrange(1 << 30), rng.randrange(1 << 30)]) for _ in range(8)]}
         sc = {"kind": "discover", "config": config, "tree": tree, "kinds": kinds, "ops": [op]}
         if config in ("git", "git128", "gitmissing", "realgit") or (config == "plain" and rng.random() < 0.0):
-            ign = []
+            rules = []
             for p, d in paths:
                 if rng.random() < 0.25:
-                    ign.append(p)
+                    rules.append({"path": p, "neg": False})
+            # negated patterns: re-include something (often something that was excluded above)
+            for _ in range(rng.randrange(0, 3)):
+                if paths and rng.random() < 0.6:
+                    src = [r["path"] for r in rules] if (rules and rng.random() < 0.6) else [p for p, d in paths]
+                    rules.append({"path": src[rng.randrange(len(src))], "neg": True})
+            if rng.random() < 0.3:
+                rng.shuffle(rules)
+            for k, r in enumerate(rules):
+                r["line"] = k + 1
             op["argv"] = ["--use-gitignore"] + op["argv"]
-            op["git"] = {"ignored": ign, "fault": None}
+            op["git"] = {"rules": rules, "fault": None}
             if config == "git128":
                 op["git"]["fault"] = {"call": rng.randrange(0, 4), "kind": "rc128"}
             if config == "gitmissing":
@@ -198,7 +207,7 @@ class C15(Engine):
             if config == "realgit":
                 op["git"]["real"] = True
                 sc["git_init"] = True
-                tree[".gitignore"] = "".join("/" + p.replace(" ", "\\ ") + "\n" for p in ign)
+                tree[".gitignore"] = gitignore_text(rules)
         if config == "toctou":
             op["faults"] = [{"seam": "open", "call": rng.randrange(0, 4), "kind": "enoent"}]
         if rng.random() < 0.3:
@@ -275,10 +284,10 @@ class C15(Engine):
         if end in ("hang", "slow", "invalid-scenario"):
             return []
         git = op.get("git") or {}
-        ignored = git.get("ignored", [])
+        rules = core.git_rules(git)
 
         def is_ignored(rel):
-            return any(rel == ig or rel.startswith(ig + "/") for ig in ignored)
+            return core.git_decide(rel, rules)[0]
         want = collections.Counter()
         for rel, ref in m["selected"]:
             if m["gitignore"] and is_ignored(rel):
@@ -401,7 +410,7 @@ class C15(Engine):
         if sh.which("git") is None:
             self.stats["stub_validation"] = "git binary not found: skipped"
             return
-        n = 6 if self.tier == "quick" else 50
+        n = 16 if self.tier == "quick" else 80
         scs_real, scs_sim = [], []
         for i in range(n):
             rng = core.derive_rng("c15.realgit", self.seed, i)
@@ -423,9 +432,37 @@ class C15(Engine):
             if va == vb and a["ops"][0].get("exit") == b["ops"][0].get("exit"):
                 agree += 1
             else:
-                raise RuntimeError(f"SimGit disagrees with the real git binary: argv={sc['ops'][0]['argv']} ignored={sc['ops'][0]['git']['ignored']} "
+                raise RuntimeError(f"SimGit disagrees with the real git binary: argv={sc['ops'][0]['argv']} rules={sc['ops'][0]['git']['rules']} "
                                    f"real={va} sim={vb} stderr={a['ops'][0].get('stderr', '')[:200]}")
-        self.stats["stub_validation"] = f"{agree} scenarios agreed with the real git binary"
+        # and the model itself, path by path, against the real binary: plain and verbose mode
+        import subprocess
+        import tempfile
+        import shutil as sh2
+        pairs = 0
+        for i in range(n):
+            rng = core.derive_rng("c15.realgit.paths", self.seed, i)
+            sc = self.gen_scenario(rng, i, "realgit")
+            rules = core.git_rules(sc["ops"][0]["git"])
+            ex = core.Executor(poolmod_resolve(sc))
+            ex.make_tree(sc["tree"])
+            root = ex.scratch
+            try:
+                subprocess.run(["git", "init", "-q"], cwd=root, capture_output=True, timeout=30)
+                for rel, isdir in all_paths(sc["tree"]):
+                    if isdir or rel.startswith("."):
+                        continue
+                    for mode in ("-q", "-v"):
+                        rc = subprocess.run(["git", "check-ignore", mode, rel], cwd=root, capture_output=True, timeout=30).returncode
+                        ig, rule = core.git_decide(rel, rules)
+                        want = 0 if (ig if mode == "-q" else rule is not None) else 1
+                        pairs += 1
+                        if rc != want:
+                            raise RuntimeError(f"SimGit model disagrees with the real git binary: `git check-ignore {mode} {rel}` -> {rc}, "
+                                               f"model {want}; rules={rules}")
+            finally:
+                sh2.rmtree(root, ignore_errors=True)
+        self.stats["stub_validation"] = (f"{agree} scenarios agreed with the real git binary; {pairs} (path, mode) decisions of the model "
+                                         f"equal `git check-ignore -q/-v`")
         self.traces_validated = agree
 
     def coverage(self):
@@ -438,11 +475,24 @@ class C15(Engine):
         if op.get("cwd", ".") != ".":
             pass
         g = op.get("git")
-        if g and g.get("ignored"):
-            for j in range(len(g["ignored"])):
+        if g and g.get("rules"):
+            for j in range(len(g["rules"])):
                 c = copy.deepcopy(sc)
-                del c["ops"][0]["git"]["ignored"][j]
+                del c["ops"][0]["git"]["rules"][j]
                 yield c
+
+
+def poolmod_resolve(sc):
+    from .. import pool as poolmod
+    return poolmod.resolve_files(sc)
+
+
+def gitignore_text(rules):
+    out = ""
+    for r in rules:
+        pat = "/" + r["path"].replace("\\", "\\\\").replace(" ", "\\ ")
+        out += ("!" if r["neg"] else "") + pat + "\n"
+    return out
 
 
 def shape_of(tree):
